@@ -55,7 +55,7 @@ def run(tier, seed):
         if ("mc", be) in results:
             res, _ = results[("mc", be)]
             chk.add_tlc("C05_mc_" + be, res)
-            chk.check_coverage(res, ACTIONS, "C05_mc_" + be)
+            bc.check_taken(chk, res, ACTIONS, "C05_mc_" + be)
         for kind, c in (("exh", ex), ("rnd", rnd)):
             res, hs = results[(kind, be)]
             name = "C05_%s_%s" % (kind, be)
